@@ -60,6 +60,101 @@ theorem encHeader_length_le (nf : Bool) (u c : Nat) (hu : u < 2 ^ 64) (hc : c < 
 theorem encHeader_pos (nf : Bool) (u c : Nat) : 0 < (encHeader nf u c).length := by
   rw [encHeader_length]; omega
 
+theorem canonDec_eq (w : Win) (bs : Bytes) :
+    canonDec w bs = match w.map (uvarintDec bs) with
+      | .error e => .error e
+      | .ok (v, n) => if n > 1 ∧ bs.getD (n - 1) 0 = 0 then .error .nonCanonical else .ok (v, n) := by
+  unfold canonDec
+  cases h : w.map (uvarintDec bs) with
+  | error e => rfl
+  | ok p =>
+    obtain ⟨v, n⟩ := p
+    simp only [bind, Except.bind]
+    split <;> rfl
+
+theorem uvarintEnc_last_ne_zero (n : Nat) : 1 ≤ n →
+    (uvarintEnc n).getD ((uvarintEnc n).length - 1) 0 ≠ 0 := by
+  induction n using Nat.strongRecOn with
+  | _ n ih =>
+    intro h1
+    by_cases h : n < 128
+    · rw [uvarintEnc_lt n h]
+      simp only [List.length_singleton, Nat.sub_self, List.getD_cons_zero]
+      intro h0
+      have := congrArg UInt8.toNat h0
+      rw [toNat_ofNat_lt n (by omega)] at this
+      simp at this; omega
+    · rw [uvarintEnc_ge n h]
+      have ih' := ih (n / 128) (Nat.div_lt_self (by omega) (by omega)) (by omega)
+      have hp := List.length_pos_iff.mpr (uvarintEnc_ne_nil (n / 128))
+      obtain ⟨k, hk⟩ : ∃ k, (uvarintEnc (n / 128)).length = k + 1 := ⟨_, (Nat.sub_add_cancel hp).symm⟩
+      rw [hk] at ih'
+      simp only [List.length_cons, hk, Nat.add_sub_cancel, List.getD_cons_succ] at ih' ⊢
+      exact ih'
+
+theorem canonDec_enc (w : Win) (n : Nat) (rest : Bytes) (hn : n < 2 ^ 64) :
+    canonDec w (uvarintEnc n ++ rest) = .ok (n, (uvarintEnc n).length) := by
+  rw [canonDec_eq, uvarintDec_enc n rest hn]
+  simp only [Win.map]
+  rw [if_neg]
+  rintro ⟨hlen, h0⟩
+  have hn1 : 1 ≤ n := by
+    rcases Nat.lt_or_ge n 1 with h | h
+    · rw [uvarintEnc_lt n (by omega)] at hlen; simp at hlen
+    · exact h
+  rw [List.getD_eq_getElem?_getD, List.getElem?_append_left (by omega),
+    ← List.getD_eq_getElem?_getD] at h0
+  exact uvarintEnc_last_ne_zero n hn1 h0
+
+theorem readHeader_eq (w : Win) : readHeader w =
+    match canonDec w w.bytes with
+    | .error e => .error e
+    | .ok (m, c1) =>
+      if m ≠ magicNumber then .error .magic else
+      match w.bytes.drop c1 with
+      | [] => .error w.end0
+      | nb :: rest =>
+        match canonDec w rest with
+        | .error e => .error e
+        | .ok (u, c2) =>
+          match canonDec w (rest.drop c2) with
+          | .error e => .error e
+          | .ok (cl, c3) =>
+            match canonDec w ((rest.drop c2).drop c3) with
+            | .error e => .error e
+            | .ok (ex, c4) =>
+              if (crc32c (w.bytes.take (c1 + 1 + c2 + c3))).toNat ≠ ex then .error .headerCrc
+              else .ok { ulen := u, clen := cl, isNil := nb == 1, hlen := c1 + 1 + c2 + c3 + c4 } := by
+  unfold readHeader
+  cases canonDec w w.bytes with
+  | error e => rfl
+  | ok p1 =>
+    obtain ⟨m, c1⟩ := p1
+    simp only [bind, Except.bind]
+    by_cases hm : m ≠ magicNumber
+    · rw [if_pos hm, if_pos hm]; rfl
+    · rw [if_neg hm, if_neg hm]
+      cases w.bytes.drop c1 with
+      | nil => rfl
+      | cons nb rest =>
+        simp only []
+        cases canonDec w rest with
+        | error e => rfl
+        | ok p2 =>
+          obtain ⟨u, c2⟩ := p2
+          simp only []
+          cases canonDec w (rest.drop c2) with
+          | error e => rfl
+          | ok p3 =>
+            obtain ⟨cl, c3⟩ := p3
+            simp only []
+            cases canonDec w ((rest.drop c2).drop c3) with
+            | error e => rfl
+            | ok p4 =>
+              obtain ⟨ex, c4⟩ := p4
+              simp only []
+              split <;> rfl
+
 theorem readHeader_enc (w : Win) (nf : Bool) (u c : Nat) (t : Bytes) (hu : u < 2 ^ 64) (hc : c < 2 ^ 64)
     (hw : w.bytes = encHeader nf u c ++ t) :
     readHeader w = .ok { ulen := u, clen := c, isNil := nf, hlen := (encHeader nf u c).length } := by
@@ -73,13 +168,13 @@ theorem readHeader_enc (w : Win) (nf : Bool) (u c : Nat) (t : Bytes) (hu : u < 2
   have htake : w.bytes.take (3 + 1 + (uvarintEnc u).length + (uvarintEnc c).length) = headerBody nf u c := by
     rw [hw, encHeader, List.append_assoc, List.take_left']
     rw [headerBody_length]
-  unfold readHeader
+  rw [readHeader_eq]
   rw [hw'] at htake ⊢
   have hd : ∀ (l : Bytes), (uvarintEnc magicNumber ++ l).drop 3 = l := by
     intro l; rw [← hlen, List.drop_left]
-  simp only [uvarintDec_enc _ _ hm, Win.map, hlen, bind, Except.bind, ne_eq, not_true_eq_false, if_false, hd]
-  simp only [uvarintDec_enc _ _ hu, List.drop_left, uvarintDec_enc _ _ hc, uvarintDec_enc _ _ hcrc, htake,
-    not_true_eq_false, if_false, pure, Except.pure]
+  simp only [canonDec_enc w _ _ hm, hlen, ne_eq, not_true_eq_false, if_false, hd]
+  simp only [canonDec_enc w _ _ hu, List.drop_left, canonDec_enc w _ _ hc, canonDec_enc w _ _ hcrc, htake,
+    not_true_eq_false, if_false]
   rw [encHeader_length]
   cases nf <;> simp <;> omega
 
@@ -164,9 +259,8 @@ theorem uvarintDec_zero (l : Bytes) : uvarintDec (0 :: l) = .ok (0, 1) := by
   simp [uvarintDec, uvarintDecAux]
 
 theorem readHeader_zero (w : Win) (l : Bytes) (hw : w.bytes = 0 :: l) : readHeader w = .error .magic := by
-  unfold readHeader
-  rw [hw, uvarintDec_zero]
-  simp [Win.map, bind, Except.bind, magicNumber, throw, throwThe, MonadExceptOf.throw]
+  rw [readHeader_eq, hw, canonDec_eq, uvarintDec_zero]
+  simp [Win.map, magicNumber]
 
 theorem fileWin_zero (n : Nat) : ∃ l, (fileWin (List.replicate (n + 1) 0)).bytes = 0 :: l := by
   unfold fileWin
@@ -178,7 +272,7 @@ theorem zero_tail_is_eof (c : Compression) (n : Nat) :
     readNextS c (List.replicate n 0) = .error .eof := by
   cases n with
   | zero =>
-    simp [readNextS, fileWin, recordHeaderMax, readHeader, uvarintDec, uvarintDecAux, Win.map, bind, Except.bind]
+    simp [readNextS, fileWin, recordHeaderMax, readHeader_eq, canonDec_eq, uvarintDec, uvarintDecAux, Win.map]
   | succ n =>
     obtain ⟨l, hl⟩ := fileWin_zero n
     unfold readNextS
